@@ -1115,7 +1115,9 @@ func strp(p *string) string {
 
 // layoutExtRoundTrips: valid claims-sets of registered extension profiles with
 // unusual struct layouts - P2Claims reached through an embedded struct of
-// UNEXPORTED type (three levels), and a mixin struct embedded BEFORE P2Claims -
+// UNEXPORTED type (three levels; with a '-' bookkeeping field that is not last, a
+// claim whose tag lists omitempty before keyasint, a CBOR-only and a JSON-only
+// claim), and a mixin struct embedded BEFORE P2Claims -
 // built with NewClaims + setters, extension claims set, encoded, decoded through
 // the dispatching decoder, compared (implementation, getters, extension claims),
 // encoded again (byte-identical). The emitted map must contain the profile
@@ -1135,6 +1137,11 @@ func layoutExtRoundTrips(c *mon.Ctx, g *model.Gen, prop, format string, n int) {
 		case *extprof.ExtNestedClaims:
 			v, p := t.NestedFields()
 			ps = []*string{*v, *p}
+			if format == "json" {
+				ps = append(ps, t.Comment) // the JSON-only claim
+			} else {
+				ps = append(ps, t.Internal) // the CBOR-only claim
+			}
 		case *extprof.MixinClaims:
 			ps = []*string{t.Mixin}
 		}
@@ -1168,6 +1175,10 @@ func layoutExtRoundTrips(c *mon.Ctx, g *model.Gen, prop, format string, n int) {
 				if g.R.Intn(4) != 0 {
 					*p = model.SP(g.NonEmptyText())
 				}
+				if g.R.Intn(3) != 0 {
+					t.Internal, t.Comment = model.SP(g.NonEmptyText()), model.SP(g.NonEmptyText())
+				}
+				t.Cache = "bookkeeping"
 			case *extprof.MixinClaims:
 				if g.R.Intn(4) != 0 {
 					t.Mixin = model.SP(g.NonEmptyText())
